@@ -356,6 +356,17 @@ def oracle_db(w, i, qn, qs):
                 if hit:
                     exp = hit[-1]; src = 'category %r' % c
                     break
+            # documented keyword: with raise_if_not_found=True the same definition, and KeyError exactly when no category has one
+            try:
+                g2 = get_spec(db, k, n, raise_if_not_found=True); e2 = None
+            except KeyError:
+                g2 = None; e2 = 'KeyError'
+            except Exception as e:
+                g2 = None; e2 = type(e).__name__
+            found = src != 'the configured unknown spec'
+            if (found and (e2 is not None or g2 is not exp)) or (not found and e2 != 'KeyError'):
+                return {'kind': 'lookup-order', 'detail': 'db %d, categories() = %r: get_%s_spec(%r, raise_if_not_found=True) gave %s / %s; the first defining category: %s'
+                        % (i, cats, KWHICH[k], n, w.show(g2) if g2 is not None else None, e2, src)}
             got = get_spec(db, k, n)
             if got is not exp:
                 return {'kind': 'lookup-order', 'detail': 'db %d, categories() = %r: get_%s_spec(%r) returned spec %s, but the first '
